@@ -617,3 +617,18 @@ Proof.
   rewrite map_app in ND. cbn [map] in ND. apply NoDup_remove_2 in ND. apply ND.
   apply in_or_app. left. rewrite <- E. apply in_map. exact Hm'.
 Qed.
+
+(* position by position: where the type has a message with the time of that position it shows its first such
+   message (the identical object), elsewhere a default-valued message carrying that time *)
+Theorem ta_positionwise : forall mode mt es outs i e l k t,
+  ta_align mode mt es = Ok outs -> ta_out_of es outs i e l -> nth_error (map ta_time l) k = Some t ->
+  (In t (ta_times e) ->
+     exists m, nth_error l k = Some (Kept m) /\ fst m = t /\ ta_first_occurrence m (e_msgs e)) /\
+  (~ In t (ta_times e) -> nth_error l k = Some (Fresh t)).
+Proof.
+  intros mode mt es outs i e l k t A O Hk. destruct (out_of_inv _ _ _ _ _ _ _ A O) as [_ [_ ->]].
+  rewrite map_pick_times in Hk. rewrite nth_error_map, Hk. cbn [option_map]. split.
+  - intros Hin. destruct (pick_in _ _ Hin) as [m [_ E]]. exists m. split; [rewrite E; reflexivity|].
+    apply pick_kept_iff. exact E.
+  - intros Hn. rewrite pick_notin by exact Hn. reflexivity.
+Qed.
